@@ -219,50 +219,50 @@ package momentum
 // what each New* function returns, read off its literal: fresh, pairwise separate sub-objects, fields equal to the
 // arguments / constants they are initialised with (transitively through nested constructors); proved, not assumed
 //@ func NewAwesomeOscillator
-//@ ensures[C01] "fresh-and-separate-objects" fresh(result) && fresh(result.LongSma) && fresh(result.ShortSma) && distinct(result.LongSma, result.ShortSma)
-//@ ensures[C01] "configured-as-given" result.LongSma.Period == 34 && result.ShortSma.Period == 5
+//@ ensures[C01,C02,C04,C15] "fresh-and-separate-objects" fresh(result) && fresh(result.LongSma) && fresh(result.ShortSma) && distinct(result.LongSma, result.ShortSma)
+//@ ensures[C01,C02,C04,C15] "configured-as-given" result.LongSma.Period == 34 && result.ShortSma.Period == 5
 
 //@ func NewChaikinOscillator
-//@ ensures[C01] "fresh-and-separate-objects" fresh(result) && fresh(result.Ad) && fresh(result.Ad.Mfv) && fresh(result.Ad.Mfv.Mfm) && fresh(result.LongEma) && fresh(result.ShortEma) && distinct(result.LongEma, result.ShortEma)
-//@ ensures[C01] "configured-as-given" result.LongEma.Period == 10 && result.LongEma.Smoothing == 2 && result.ShortEma.Period == 3 && result.ShortEma.Smoothing == 2
+//@ ensures[C01,C02,C04,C15] "fresh-and-separate-objects" fresh(result) && fresh(result.Ad) && fresh(result.Ad.Mfv) && fresh(result.Ad.Mfv.Mfm) && fresh(result.LongEma) && fresh(result.ShortEma) && distinct(result.LongEma, result.ShortEma)
+//@ ensures[C01,C02,C04,C15] "configured-as-given" result.LongEma.Period == 10 && result.LongEma.Smoothing == 2 && result.ShortEma.Period == 3 && result.ShortEma.Smoothing == 2
 
 //@ func NewIchimokuCloud
-//@ ensures[C01] "fresh-and-separate-objects" fresh(result) && fresh(result.BaseMax) && fresh(result.BaseMin) && fresh(result.ConversionMax) && fresh(result.ConversionMin) && fresh(result.LeadingMax) && fresh(result.LeadingMin) && distinct(result.BaseMax, result.ConversionMax, result.LeadingMax) && distinct(result.BaseMin, result.ConversionMin, result.LeadingMin)
-//@ ensures[C01] "configured-as-given" result.BaseMax.Period == 26 && result.BaseMin.Period == 26 && result.ConversionMax.Period == 9 && result.ConversionMin.Period == 9 && result.LaggingPeriod == 26 && result.LeadingMax.Period == 52 && result.LeadingMin.Period == 52
+//@ ensures[C01,C02,C04,C15] "fresh-and-separate-objects" fresh(result) && fresh(result.BaseMax) && fresh(result.BaseMin) && fresh(result.ConversionMax) && fresh(result.ConversionMin) && fresh(result.LeadingMax) && fresh(result.LeadingMin) && distinct(result.BaseMax, result.ConversionMax, result.LeadingMax) && distinct(result.BaseMin, result.ConversionMin, result.LeadingMin)
+//@ ensures[C01,C02,C04,C15] "configured-as-given" result.BaseMax.Period == 26 && result.BaseMin.Period == 26 && result.ConversionMax.Period == 9 && result.ConversionMin.Period == 9 && result.LaggingPeriod == 26 && result.LeadingMax.Period == 52 && result.LeadingMin.Period == 52
 
 //@ func NewPpo
-//@ ensures[C01] "fresh-and-separate-objects" fresh(result) && fresh(result.LongEma) && fresh(result.ShortEma) && fresh(result.SignalEma) && distinct(result.LongEma, result.ShortEma, result.SignalEma)
-//@ ensures[C01] "configured-as-given" result.LongEma.Period == 26 && result.LongEma.Smoothing == 2 && result.ShortEma.Period == 12 && result.ShortEma.Smoothing == 2 && result.SignalEma.Period == 9 && result.SignalEma.Smoothing == 2
+//@ ensures[C01,C02,C04,C15] "fresh-and-separate-objects" fresh(result) && fresh(result.LongEma) && fresh(result.ShortEma) && fresh(result.SignalEma) && distinct(result.LongEma, result.ShortEma, result.SignalEma)
+//@ ensures[C01,C02,C04,C15] "configured-as-given" result.LongEma.Period == 26 && result.LongEma.Smoothing == 2 && result.ShortEma.Period == 12 && result.ShortEma.Smoothing == 2 && result.SignalEma.Period == 9 && result.SignalEma.Smoothing == 2
 
 //@ func NewPvo
-//@ ensures[C01] "fresh-and-separate-objects" fresh(result) && fresh(result.LongEma) && fresh(result.ShortEma) && fresh(result.SignalEma) && distinct(result.LongEma, result.ShortEma, result.SignalEma)
-//@ ensures[C01] "configured-as-given" result.LongEma.Period == 26 && result.LongEma.Smoothing == 2 && result.ShortEma.Period == 12 && result.ShortEma.Smoothing == 2 && result.SignalEma.Period == 9 && result.SignalEma.Smoothing == 2
+//@ ensures[C01,C02,C04,C15] "fresh-and-separate-objects" fresh(result) && fresh(result.LongEma) && fresh(result.ShortEma) && fresh(result.SignalEma) && distinct(result.LongEma, result.ShortEma, result.SignalEma)
+//@ ensures[C01,C02,C04,C15] "configured-as-given" result.LongEma.Period == 26 && result.LongEma.Smoothing == 2 && result.ShortEma.Period == 12 && result.ShortEma.Smoothing == 2 && result.SignalEma.Period == 9 && result.SignalEma.Smoothing == 2
 
 //@ func NewQstick
-//@ ensures[C01] "fresh-and-separate-objects" fresh(result) && fresh(result.Sma)
-//@ ensures[C01] "configured-as-given" result.Sma.Period == 20
+//@ ensures[C01,C02,C04,C15] "fresh-and-separate-objects" fresh(result) && fresh(result.Sma)
+//@ ensures[C01,C02,C04,C15] "configured-as-given" result.Sma.Period == 20
 
 //@ func NewRsi
-//@ ensures[C01] "fresh-and-separate-objects" fresh(result) && fresh(result.Rma)
-//@ ensures[C01] "configured-as-given" result.Rma.Period == 14
+//@ ensures[C01,C02,C04,C15] "fresh-and-separate-objects" fresh(result) && fresh(result.Rma)
+//@ ensures[C01,C02,C04,C15] "configured-as-given" result.Rma.Period == 14
 
 //@ func NewRsiWithPeriod
-//@ ensures[C01] "fresh-and-separate-objects" fresh(result) && fresh(result.Rma)
-//@ ensures[C01] "configured-as-given" result.Rma.Period == period
+//@ ensures[C01,C02,C04,C15] "fresh-and-separate-objects" fresh(result) && fresh(result.Rma)
+//@ ensures[C01,C02,C04,C15] "configured-as-given" result.Rma.Period == period
 
 //@ func NewStochasticOscillator
-//@ ensures[C01] "fresh-and-separate-objects" fresh(result) && fresh(result.Max) && fresh(result.Min) && fresh(result.Sma)
-//@ ensures[C01] "configured-as-given" result.Max.Period == 14 && result.Min.Period == 14 && result.Sma.Period == 3
+//@ ensures[C01,C02,C04,C15] "fresh-and-separate-objects" fresh(result) && fresh(result.Max) && fresh(result.Min) && fresh(result.Sma)
+//@ ensures[C01,C02,C04,C15] "configured-as-given" result.Max.Period == 14 && result.Min.Period == 14 && result.Sma.Period == 3
 
 //@ func NewStochasticRsi
-//@ ensures[C01] "fresh-and-separate-objects" fresh(result) && fresh(result.Max) && fresh(result.Min) && fresh(result.Rsi) && fresh(result.Rsi.Rma)
-//@ ensures[C01] "configured-as-given" result.Max.Period == 14 && result.Min.Period == 14 && result.Rsi.Rma.Period == 14
+//@ ensures[C01,C02,C04,C15] "fresh-and-separate-objects" fresh(result) && fresh(result.Max) && fresh(result.Min) && fresh(result.Rsi) && fresh(result.Rsi.Rma)
+//@ ensures[C01,C02,C04,C15] "configured-as-given" result.Max.Period == 14 && result.Min.Period == 14 && result.Rsi.Rma.Period == 14
 
 //@ func NewStochasticRsiWithPeriod
-//@ ensures[C01] "fresh-and-separate-objects" fresh(result) && fresh(result.Max) && fresh(result.Min) && fresh(result.Rsi) && fresh(result.Rsi.Rma)
-//@ ensures[C01] "configured-as-given" result.Max.Period == period && result.Min.Period == period && result.Rsi.Rma.Period == period
+//@ ensures[C01,C02,C04,C15] "fresh-and-separate-objects" fresh(result) && fresh(result.Max) && fresh(result.Min) && fresh(result.Rsi) && fresh(result.Rsi.Rma)
+//@ ensures[C01,C02,C04,C15] "configured-as-given" result.Max.Period == period && result.Min.Period == period && result.Rsi.Rma.Period == period
 
 //@ func NewWilliamsR
-//@ ensures[C01] "fresh-and-separate-objects" fresh(result) && fresh(result.Max) && fresh(result.Min)
-//@ ensures[C01] "configured-as-given" result.Max.Period == 14 && result.Min.Period == 14
+//@ ensures[C01,C02,C04,C15] "fresh-and-separate-objects" fresh(result) && fresh(result.Max) && fresh(result.Min)
+//@ ensures[C01,C02,C04,C15] "configured-as-given" result.Max.Period == 14 && result.Min.Period == 14
 // ---- end of generated constructor contracts ----
